@@ -60,7 +60,6 @@ def reindex(ctx, norders=3):
                       "C05 an open order keeps being processed by later bars however long the history (re-indexing "
                       "never loses it)")
     ctx.cover("end of history")
-    ctx.cover("a request was rejected: place")
 
 
 def extra_jobs(tier):
